@@ -20,3 +20,32 @@ Print Assumptions C04_alg_okb_sound.
 Theorem C04_model_passes_base : forall c, base_wf c -> alg_ok (k_alg c) -> CtrlC04.holdsb (with_obs c (model_obs c)) = true.
 Proof. exact CtrlLinksC04.C04_model_passes_base. Qed.
 Print Assumptions C04_model_passes_base.
+
+(* ---- second C04 observer (Drv/CtrlC04Step.v): consecutive ordinary cycles of the rate-limited algorithm move
+   the request by at most the limit, also across a change of the curve value.  Hypotheses: [base_wf] and a
+   non-negative limit ([lim_ok]; implied by [alg_ok]; generated limits are 1..255).  With a negative limit the
+   observer is false of the model: [C04_step_needs_lim_ok]. *)
+From F2G Require Proofs.CtrlLinksC04Step Drv.CtrlC04Step.
+
+Theorem C04_step_model_passes : forall c, base_wf c ->
+  CtrlC04Step.holdsb (with_obs c (model_obs c)) = true.
+Proof. exact CtrlLinksC04Step.C04_step_model_passes. Qed.
+Print Assumptions C04_step_model_passes.
+
+Theorem C04_step_no_false_alarm : forall c, mismatch c = false -> base_wf c ->
+  CtrlC04Step.holdsb c = true.
+Proof. exact CtrlLinksC04Step.C04_step_no_false_alarm. Qed.
+Print Assumptions C04_step_no_false_alarm.
+
+Theorem C04_step_alg_ok_suffices : forall a, alg_ok a -> CtrlLinksC04Step.lim_ok a.
+Proof. exact CtrlLinksC04Step.alg_ok_lim_ok. Qed.
+Print Assumptions C04_step_alg_ok_suffices.
+
+Theorem C04_step_needs_lim_ok :
+  base_wfb CtrlLinksC04Step.step_counterexample = true
+  /\ CtrlC04Step.step_scan (-3) false
+       (mkObs 0 None nil 0 0 0 0 (Model.Fan.GetMinPwm (case_fan CtrlLinksC04Step.step_counterexample)) 0%float)
+       (zip (k_hist CtrlLinksC04Step.step_counterexample) (model_obs CtrlLinksC04Step.step_counterexample)) = false
+  /\ CtrlC04Step.holdsb (with_obs CtrlLinksC04Step.step_counterexample (model_obs CtrlLinksC04Step.step_counterexample)) = true.
+Proof. exact CtrlLinksC04Step.step_needs_lim_ok. Qed.
+Print Assumptions C04_step_needs_lim_ok.
